@@ -149,7 +149,9 @@ def main():
         for c in r.covers:
             if c[1] == "SATISFIED":
                 n_cover_sat += 1
-            else:
+            elif r.status == "SUCCESSFUL":
+                # (in a harness with a failed assertion the paths behind it end there: an
+                # unreachable cover is expected and the failure itself is what gets reported)
                 n_cover_unsat.append("%s: %s (%s)" % (r.name, c[0], c[1]))
         if r.status == "SUCCESSFUL":
             continue
@@ -157,10 +159,15 @@ def main():
             ha = [f for f in r.failed if "HARNESS-ASSUMPTION" in f[1] or "model capacity" in f[1] or "http model:" in f[1]]
             if ha:
                 inconclusive.append("%s: a harness/model assumption does not hold on this tree: %s" % (r.name, ha[0][1][:160]))
-            rel = [f for f in r.failed if f not in ha and prop in tags_of(f[1], u.get("panic_tags", ["C13"]))]
+            # An assertion that fails ends its path, so it can mask a later assertion that carries
+            # this property's tag: every failure is replayed natively and the replayer's own
+            # oracles decide which property is violated. Only failures tagged with THIS property
+            # that do not reproduce make the run inconclusive.
+            rel = [f for f in r.failed if f not in ha]
+            tagged = [f for f in rel if prop in tags_of(f[1], u.get("panic_tags", ["C13"]))]
             if rel:
-                relevant_fail.append((u, r, rel))
-            else:
+                relevant_fail.append((u, r, rel, bool(tagged)))
+            if not tagged:
                 other_fail.append((r.name, [f[1] for f in r.failed][:4]))
             continue
         inconclusive.append("%s: %s %s" % (r.name, r.status, r.reason[:300]))
@@ -172,10 +179,12 @@ def main():
         rp = replay.Replayer(mainlog)
         try:
             seen = set()
-            for u, r, rel in relevant_fail:
+            for u, r, rel, is_tagged in relevant_fail:
                 short = r.name.split("::")[-1]
                 pbs = r.playbacks or []
                 if not pbs:
+                    if not is_tagged:
+                        continue
                     unconfirmed.append("%s: failed checks %s but no concrete playback was produced" % (r.name, [f[1] for f in rel][:3]))
                     continue
                 confirmed_here = False
@@ -209,25 +218,7 @@ def main():
                                 confirmed_here = True
                         if out.get("error"):
                             mainlog.write("replay error (%s) %s: %s\n" % (profile, r.name, out["error"]))
-                    continue
-                    key = json.dumps(scn, sort_keys=True)
-                    if key in seen:
-                        confirmed_here = confirmed_here or key in {json.dumps(v[0], sort_keys=True) for v in violations}
-                        continue
-                    seen.add(key)
-                    outs = {p: rp.run(scn, p) for p in ("debug", "release")}
-                    for profile, out in outs.items():
-                        for nv in out.get("violations", []) or []:
-                            if prop in nv.get("properties", [nv.get("property")]):
-                                k = known_match(known, prop, scn, nv)
-                                if k:
-                                    known_hits.append((k, nv))
-                                else:
-                                    violations.append((scn, nv, profile, r.name, [f[1] for f in rel]))
-                                confirmed_here = True
-                        if out.get("error"):
-                            mainlog.write("replay error (%s) %s: %s\n" % (profile, r.name, out["error"]))
-                if not confirmed_here:
+                if not confirmed_here and is_tagged:
                     unconfirmed.append(
                         "%s: solver counterexample for %s did not reproduce as a %s violation on the real build"
                         % (r.name, [f[1] for f in rel][:3], prop)
